@@ -113,6 +113,32 @@ func SetGID(f *FileData, gid int) {
 	f.Unlock()
 }
 
+// PrepareOpen finishes a handle that MemMapFs.OpenFile has just made: with toEnd (O_APPEND) the
+// offset becomes the current length of the file, with truncate (O_TRUNC on a handle that may
+// write) the file is emptied afterwards.  Both happen under ONE hold of the file's mutex.  As
+// two calls, Seek and then Truncate, they were two critical sections: a Write through another
+// handle on the same file could fall between them (handles do not take the lock of the
+// filesystem), and the new handle kept the length from before that write as its offset although
+// the written bytes were gone.
+func (f *File) PrepareOpen(toEnd, truncate bool) error {
+	f.fileData.Lock()
+	defer f.fileData.Unlock()
+	if f.closed {
+		return ErrFileClosed
+	}
+	if truncate && f.readOnly {
+		return &os.PathError{Op: "truncate", Path: f.fileData.name, Err: errors.New("file handle is read only")}
+	}
+	if toEnd {
+		atomic.StoreInt64(&f.at, int64(len(f.fileData.data)))
+	}
+	if truncate {
+		f.fileData.data = f.fileData.data[0:0]
+		setModTime(f.fileData, time.Now())
+	}
+	return nil
+}
+
 func GetFileInfo(f *FileData) *FileInfo {
 	return &FileInfo{f}
 }
